@@ -725,6 +725,11 @@ func (c *EvalCtx) evalCall(e *ECall) TV {
 		t4 := fmt.Sprintf("(forall ((%s Int)) (! (and (= (%s (%s %s)) %s) (= (%s (%s %s)) %s)) :pattern ((%s %s)) :pattern ((%s %s))))",
 			qi, inv, perm, qi, qi, perm, inv, qi, qi, perm, qi, inv, qi)
 		return TV{Term: "(and " + t1 + " " + t2 + " " + t3 + " " + t4 + ")", Sort: "Bool", T: boolT}
+	case "bitand", "bitor", "bitxor":
+		argn(2)
+		x := c.eval(e.Args[0])
+		y := c.eval(e.Args[1])
+		return TV{Term: "(" + fname + " " + x.Term + " " + y.Term + ")", Sort: "Int", T: intT}
 	case "sent", "nsent":
 		// sent(c): the last value sent on channel c; nsent(c): how many values were sent on it
 		argn(1)
